@@ -14,19 +14,19 @@ func init() { register("C27", checkC27) }
 
 func checkC27(p *Prog, r *Result, tier string) {
 	r.Technique = "go/cfg dominance and AST shape rules on both ServiceStatusStream implementations (watch-before-get, event classification, full-set publication) and on the helium dispatcher (escape rule for the unsubscribe rendezvous, close/cancel pairing, unconditional dispatch)"
-	r.Explanation = "WG in both backends the watch is established before the current registrations are read (the call that opens the watch dominates the read), so no registration change between the two is lost; EV put-type events add the endpoint and delete-type events remove it; SND the full endpoint set is published after the initial read and after every change; CHG the flag that triggers a publication is only raised (never overwritten) inside a per-event loop, so one changing event in a batch suffices; " +
+	r.Explanation = "WG in both backends the watch is established before the current registrations are read (the call that opens the watch dominates the read), so no registration change between the two is lost; EV put-type events add the endpoint and delete-type events remove it; SND the full endpoint set is published after the initial read and after every change, by a send that cannot be abandoned (blocking, or in a select whose other cases all end the producer); CHG the flag that triggers a publication is only raised (never overwritten) inside a per-event loop, so one changing event in a batch suffices; " +
 		"U1 Unsubscribe's rendezvous with the dispatch loop has an escape: the send on the unsubscribe channel sits in a select whose other case receives from a channel that is closed when the loop goroutine exits (first-statement defer) and on every path of start() that returns without starting it, and the escape case releases the subscriber itself; " +
-		"U2 releasing a subscriber cancels its context, deletes its entry and closes its channel, under a mutex; D1 the loop dispatches the latest status after every event, unsubscribe and tick (dispatch is the unconditional last statement of the loop body) and the latest status is built from the received addresses; D2 delivery to one subscriber has an escape on that same subscriber's own context (not on the loop's)."
+		"U2 releasing a subscriber cancels its context, deletes its entry and closes its channel, under a mutex; D1 the loop dispatches the latest status after every event, unsubscribe and tick (dispatch is the unconditional last statement of the loop body) and the latest status is built from the received addresses; D2 delivery to one subscriber has an escape on that same subscriber's own context (not on the loop's), and that context is a child of the context the subscriber passed to Subscribe."
 	r.NotCovered = "convergence within one push interval when a live subscriber does not read (delivery is sequential); the store's watch semantics"
 	r.Assumptions = []string{"A3", "A4 etcd watch / redis keyspace notifications deliver every change after the watch is established"}
 	r.min("WG", 2)
 	r.min("EV", 2)
-	r.min("SND", 2)
+	r.min("SND", 4)
 	r.min("CHG", 1)
 	r.min("U1", 3)
 	r.min("U2", 1)
 	r.min("D1", 2)
-	r.min("D2", 1)
+	r.min("D2", 2)
 
 	// ---- stores
 	for _, be := range []struct{ name, watch, get string }{
@@ -199,6 +199,58 @@ func checkC27(p *Prog, r *Result, tier string) {
 		}
 		r.check(initial && onChange, "SND", be.name+" / the full set is published initially and after every change", p.pos(prod.Lit), "ch <- eps.ToSlice() after the read and inside the watch loop",
 			fmt.Sprintf("initial publication: %v; publication on change: %v", initial, onChange))
+		// SND (no drop): a publication is a blocking send; if it sits in a select, every other case ends the producer —
+		// a case that falls through (a timeout) drops the update, and nothing re-sends it until the set changes again
+		{
+			why := ""
+			nsend := 0
+			ast.Inspect(prod.Body, func(x ast.Node) bool {
+				sel, ok := x.(*ast.SelectStmt)
+				if !ok {
+					if ss, ok := x.(*ast.SendStmt); ok && strings.Contains(exprStr(ss.Value), "ToSlice") {
+						nsend++
+					}
+					return true
+				}
+				isPub := false
+				for _, cl := range sel.Body.List {
+					cc := cl.(*ast.CommClause)
+					if ss, ok := cc.Comm.(*ast.SendStmt); ok && strings.Contains(exprStr(ss.Value), "ToSlice") {
+						isPub = true
+					}
+				}
+				if !isPub {
+					return true
+				}
+				for _, cl := range sel.Body.List {
+					cc := cl.(*ast.CommClause)
+					if ss, ok := cc.Comm.(*ast.SendStmt); ok && strings.Contains(exprStr(ss.Value), "ToSlice") {
+						continue
+					}
+					ends := false
+					if n := len(cc.Body); n > 0 {
+						if _, isRet := cc.Body[n-1].(*ast.ReturnStmt); isRet {
+							ends = true
+						}
+					}
+					if !ends {
+						what := "default"
+						if cc.Comm != nil {
+							what = prod.Pkg.Fset.Position(cc.Comm.Pos()).String()
+							if es, ok := cc.Comm.(*ast.ExprStmt); ok {
+								what = exprStr(es.X)
+							}
+						}
+						why = "the publication at " + p.pos(sel) + " can be abandoned through the case `" + what + "`, after which the producer carries on: the update is dropped and subscribers keep a stale set until the registrations change again"
+					}
+				}
+				return true
+			})
+			if nsend == 0 {
+				why = "no publication found"
+			}
+			r.check2(why, "SND", be.name+" / a publication is never dropped", p.pos(prod.Lit), fmt.Sprintf("%d publication send(s): blocking, or in a select whose other cases end the producer", nsend))
+		}
 	}
 
 	// ---- helium
@@ -505,4 +557,25 @@ func checkC27(p *Prog, r *Result, tier string) {
 		return true
 	})
 	r.check2(why, "D2", DP.Name+" / delivery gives up when the subscriber's context ends", p.pos(DP.Decl), "select { case val.ch <- status: case <-val.ctx.Done(): }")
+	// D2 (origin): the subscriber's context is a child of the context the subscriber handed to Subscribe — that is the
+	// only thing that ends when the client goes away without unsubscribing; a detached context never fires the escape
+	if SB := p.Fn(hp + ".(*Helium).Subscribe"); SB == nil {
+		r.undecided("D2", hp+".(*Helium).Subscribe", "", "not found")
+	} else {
+		whyS := "no context.WithCancel(<caller's ctx>) found in Subscribe"
+		param := SB.paramObj(0)
+		SB.inspectBody(func(n ast.Node) bool {
+			c, ok := n.(*ast.CallExpr)
+			if !ok || SB.Callee(c) == nil || SB.Callee(c).Pkg() == nil || SB.Callee(c).Pkg().Path() != "context" || !strings.HasPrefix(SB.Callee(c).Name(), "With") || len(c.Args) < 1 {
+				return true
+			}
+			if id, ok := unparen(c.Args[0]).(*ast.Ident); ok && SB.objOf(id) == param {
+				whyS = ""
+			} else {
+				whyS = "the subscriber's context is derived from `" + exprStr(c.Args[0]) + "`, not from the context the subscriber passed in: when the client goes away without unsubscribing, nothing ends it, the dispatch loop blocks on that subscriber and every other subscriber (and Unsubscribe) stalls"
+			}
+			return true
+		})
+		r.check2(whyS, "D2", SB.Name+" / a subscriber's context ends with the context it subscribed with", p.pos(SB.Decl), "subCtx, cancel := context.WithCancel(ctx)")
+	}
 }
